@@ -35,3 +35,37 @@ Definition j01 (i : gimporter) (files : list gfile_obs) : list N :=
   let holds := negb (no_custom_overrides i) || forallb (fun f => imports_exact i (fo_key f)) files in
   let known := if existsb query_in_slice_class (gi_queries i) then 1 else 0 in
   [1; known; if holds then 1 else 0; d1 + d2].
+
+(** * the generator's values: buildQueries against Model/GoGen (correspondence) *)
+From Verif Require Import Model.GoGen.
+
+Definition gfield_eqb (a b : gfield) : bool :=
+  String.eqb (fst (fst a)) (fst (fst b)) && String.eqb (snd (fst a)) (snd (fst b)) && String.eqb (snd a) (snd b).
+Definition gstruct_eqb (a b : gstruct) : bool :=
+  String.eqb (gst_name a) (gst_name b) && list_eqb gfield_eqb (gst_fields a) (gst_fields b).
+Definition vo_eqb (a b : gval_out) : bool :=
+  Bool.eqb (vo_emit a) (vo_emit b) && String.eqb (vo_name a) (vo_name b) && String.eqb (vo_typ a) (vo_typ b)
+  && match vo_struct a, vo_struct b with
+     | Some x, Some y => gstruct_eqb x y
+     | None, None => true
+     | _, _ => false
+     end.
+Definition qo_eqb (a b : gq_out) : bool :=
+  String.eqb (qo_method a) (qo_method b) && String.eqb (qo_cmd a) (qo_cmd b) && String.eqb (qo_source a) (qo_source b)
+  && vo_eqb (qo_ret a) (qo_ret b) && vo_eqb (qo_arg a) (qo_arg b).
+
+Fixpoint first_diff (pos : N) (a b : list gq_out) : N :=
+  match a, b with
+  | [], [] => 0
+  | x :: a', y :: b' => if qo_eqb x y then first_diff (pos + 1) a' b' else pos
+  | _, _ => pos
+  end.
+
+(** [0] = the model's buildQueries is what the generator built; [k] = the k-th query (sorted by
+    method name, from 1) differs; [98]/[99] = the model panics / fails *)
+Definition j01_gen (st : gsettings) (c : catalog) (structs : list gstruct) (qs : list (query * string)) (observed : list gq_out) : list N :=
+  match build_queries st c structs qs with
+  | Ok l => [first_diff 1 l observed]
+  | Panic _ => [98]
+  | Err _ => [99]
+  end.
